@@ -351,6 +351,15 @@ class Ctx:
             }, no_input=True)
         cov = self.cov
         cov["distinct_nontrivial"] = len(self._distinct)
+        # schema hygiene: `exhaustive` is a boolean, counts are integers, samples is a non-empty list
+        if "exhaustive" in cov and not isinstance(cov["exhaustive"], bool):
+            cov["exhaustive_note"] = str(cov["exhaustive"])
+            cov["exhaustive"] = False
+        for k in ("states", "transitions", "programs", "disagreements_checked"):
+            if k in cov and not isinstance(cov[k], int):
+                cov[k + "_note"] = str(cov.pop(k))
+        if not cov["samples"]:
+            cov["samples"] = ["(no sample recorded by this run)"]
         cov["obligations"] = props["obligations"]
         cov["discharged"] = props["discharged"]
         cov["theorems"] = props["theorems"]
@@ -373,7 +382,7 @@ class Ctx:
             "coverage": cov, "assumptions": self.assumptions,
             "wall_s": round(time.time() - self.t0, 2), "violations": len(self.violations),
         }
-        edir = VERIF / "evidence"
+        edir = Path(os.environ.get("VERIF_EVIDENCE_DIR", str(VERIF / "evidence")))
         edir.mkdir(exist_ok=True)
         (edir / f"{self.pid}.json").write_text(json.dumps(ev, indent=1, ensure_ascii=False) + "\n")
         return 1 if self.violations else 0
